@@ -1464,14 +1464,27 @@ for _t in ('dict', 'list', 'tuple', 'object', 'set'):
 # ---------------------------------------------------------------------------------------------
 # str / bytes methods
 
+def _str_arg(eng, st, v, line):
+    """(state, str value | Raise) for an argument that must be a str."""
+    if v.ty.kind == 'any':
+        for s1, isstr in eng.fork(st, PV.is_ps(v.t)):
+            yield s1, (unbox(v.t, STR) if isstr else R('TypeError', line))
+    elif v.ty.kind in ('str', 'bytes', 'bytearray'):
+        yield st, v
+    else:
+        yield st, R('TypeError', line)
+
+
 @libm('str', 'startswith')
 def _startswith(eng, st, recv, args, kwargs, line):
-    yield st, vbool(z3.PrefixOf(args[0].t, recv.t))
+    for s1, a in _str_arg(eng, st, args[0], line):
+        yield s1, (a if isinstance(a, core.Raise) else vbool(z3.PrefixOf(a.t, recv.t)))
 
 
 @libm('str', 'endswith')
 def _endswith(eng, st, recv, args, kwargs, line):
-    yield st, vbool(z3.SuffixOf(args[0].t, recv.t))
+    for s1, a in _str_arg(eng, st, args[0], line):
+        yield s1, (a if isinstance(a, core.Raise) else vbool(z3.SuffixOf(a.t, recv.t)))
 
 
 @libm('str', 'lower')
